@@ -44,8 +44,9 @@ Value& IMAGExpression::value(Context & ctx) const
   case Type::NO_TYPE:
     break;
   case Type::IMAGINARY:
+    /* a null complex gives a null of the result type */
     if (val.isNull())
-      return val;
+      break;
     v = Value(Numeric(std::abs(IMAGINARY_TO_COMPLEX(*val.imaginary()))));
     break;
   default:
